@@ -33,6 +33,7 @@ EXTRA = {}
 
 REQUIRED = ['proggen', 'pg_disjunction', 'pg_in', 'pg_assign', 'pg_dup_fact',
             'pcall_repeated', 'disjunction_of_atoms', 'if_chain',
+            'named_args_reordered_between_rules',
             'disjunction_repeated_swapped',
             'join', 'disjunction', 'dup_fact', 'arith', 'assign', 'inc_bind',
             'if', 'list', 'record', 'pcall', 'inline', 'multi_rule', 'cmp']
